@@ -97,6 +97,18 @@ class Engine:
             self._loop_cache[ct.cid] = source_order_loops(fn)
         return self._loop_cache[ct.cid]
 
+    def call_ordinal(self, ct, node):
+        """source-order ordinal of a call node inside the function under contract (stable under line shifts)"""
+        if node is None:
+            return 0
+        key = ("calls", ct.cid)
+        if key not in self._loop_cache:
+            mod, cls, fn = self.find_function(ct)
+            calls = [n for n in ast.walk(fn) if isinstance(n, (ast.Call, ast.With))]
+            calls.sort(key=lambda n: (n.lineno, n.col_offset))
+            self._loop_cache[key] = {id(n): k for k, n in enumerate(calls)}
+        return self._loop_cache[key].get(id(node), 0)
+
     def exc_parent(self, cls):
         return self.exc_classes.get(cls)
 
@@ -337,6 +349,8 @@ class Engine:
             fr.contract = ct
             interp.frames.append(fr)
             ctx.spec = True
+            for g, gty in ct.ghost.get("vars", {}).items():
+                ctx.ghost[g] = ctx.fresh(interp.ptype(gty), "g_" + g)
             for r in ct.requires:
                 ctx.assume(ctx.zbool(ctx.truth(interp.eval_spec_text(r))))
             ctx.spec = False
